@@ -1083,6 +1083,38 @@ def seekable_any_cfgs(rng, count):
 
 
 # =========================================================================== the check
+# what coq/Model/C10_BodyStream.v mirrors by hand (its comments name the same functions)
+MODELLED = [
+    "webob.request:BaseRequest.body_file",             # body_file            (getter: HEmpty / HRaw / HWrap, wrapper cache)
+    "webob.request:BaseRequest.body_file_seekable",    # rstep SeekRead
+    "webob.request:BaseRequest.body",                  # get_body             (getter, incl. the short-read check)
+    "webob.request:BaseRequest.body.fset",             # set_body
+    "webob.request:BaseRequest.is_body_readable",      # readable / term_flag
+    "webob.request:BaseRequest.is_body_readable.fset", # set_term (temp-file branch of copy_body)
+    "webob.request:BaseRequest.make_body_seekable",    # make_seekable
+    "webob.request:BaseRequest.copy_body",             # copy_body / cb_loop
+    "webob.request:BaseRequest.copy",                  # rstep Copy
+    "webob.request:BaseRequest.copy_get",              # rstep CopyGet
+    "webob.request:BaseRequest.POST",                  # rstep Post (cache, make seekable, rewinds; parser external)
+    "webob.request:BaseRequest.call_application",      # rstep CallApp (rewind of a seekable body)
+    "webob.request:LimitedLengthFile.__init__",        # mkW [] clen inp
+    "webob.request:LimitedLengthFile.readinto",        # llf_readinto
+    "webob.request:DisconnectionError",                # res.Disc
+]
+# exercised on the real code by the oracle / correspondence but not mirrored in Gallina
+ORACLE_ONLY = [
+    "webob.descriptors:parse_int_safe",                # content_length: the model takes the parsed value (decimal texts only)
+    "webob.descriptors:environ_getter",                # is_body_seekable / body_file_raw: plain environ fields in the model
+    "webob.request:BaseRequest.body_file.fset",        # wsgi.input replaced through the setter
+    "webob.request:BaseRequest._text__set",
+    "webob.request:BaseRequest._json_body__set",
+    "webob.request:BaseRequest.make_tempfile",
+    "webob.request:BaseRequest._check_charset",
+    "webob.compat:cgi_FieldStorage",
+    "webob.multidict:MultiDict.from_fieldstorage",
+]
+
+
 def corr_cases(ctx, rng, n, maxlen, depth):
     cases = []
     for _ in range(n):
@@ -1119,6 +1151,8 @@ def consistent_cfg(rng, maxlen):
 
 
 def run(ctx):
+    ctx.modelled(MODELLED)
+    ctx.extra["oracle_only"] = ORACLE_ONLY
     ctx.build(["Props/C10.vo"])
 
     # ---- correspondence: model vs implementation on histories of access paths
